@@ -1748,6 +1748,16 @@ def rewrite(t, fn):
             n = _renorm_tpl(n)
     elif k == "fmt":
         n = (k, [p if p[0] == "lit" else (p[0], p[1], rewrite(p[2], fn)) for p in t[1]])
+        if any(p[0] == "arg" and p[2][0] == "fmt" and str(p[1]).strip(" {}:") in ("", "new_display") for p in n[1]):
+            # the text of a format! that came to stand in a `{}` of another stands in its place
+            parts = []
+            for p in n[1]:
+                for q_ in (p[2][1] if p[0] == "arg" and p[2][0] == "fmt" and str(p[1]).strip(" {}:") in ("", "new_display") else [p]):
+                    if q_[0] == "lit" and parts and parts[-1][0] == "lit":
+                        parts[-1] = ("lit", parts[-1][1] + q_[1])
+                    else:
+                        parts.append(q_)
+            n = (k, parts)
     elif k == "op":
         n = (k, t[1], [rewrite(a, fn) for a in t[2]])
     elif k == "cast":
@@ -2217,7 +2227,10 @@ class Norm:
 
         def sep_test(e):
             # the `if <another one follows / this is not the first>` test of a separator
-            return len(e[-1]) == 2 and any(x[0] == "call" and x[1] in ("loop::peek_next", "Iterator::enumerate") for x in subterms(e[-1][1][3]))
+            # (the position handed out by enumerate(), or a look at the next element - not any use of the enumerated element)
+            return len(e[-1]) == 2 and any((x[0] == "call" and x[1] == "loop::peek_next")
+                                           or (x[0] == "field" and x[2] == "0" and x[1][0] == "elem" and x[1][1][0] == "call" and x[1][1][1] == "Iterator::enumerate")
+                                           for x in subterms(e[-1][1][3]))
 
         # several pushes per element (some of them conditional) are one push of their text
         merged, i = [], 0
@@ -2239,11 +2252,19 @@ class Norm:
             merged.append(a)
             i += 1
         et = merged
+
+        def alone(a, b):
+            # the separator and the piece are all that the loop does to the string: a third effect in the same loop would be torn from the
+            # pieces it is emitted between
+            return sum(1 for e in et if isinstance(e[-1], (list, tuple)) and len(e[-1]) and e[-1][0] == a[-1][0]) == 2 \
+                if isinstance(a[-1], (list, tuple)) and len(a[-1]) else False
         out, i = [], 0
         while i < len(et):
             a = et[i]
             b = et[i + 1] if i + 1 < len(et) else None
             done = False
+            if b is not None and not alone(a, b):
+                b = None
             if b is not None and is_push(a, 1) and is_push(b, 2) and a[-1][0][:2] == ("guard", "for") and b[-1][0] == a[-1][0] \
                     and b[-1][1][:3] == ("guard", "if", True):
                 it = a[-1][0][2]
@@ -3626,7 +3647,26 @@ class Norm:
                         for src, dst in subs:
                             pt = rewrite(pt, lambda n, src=src, dst=dst: dst if n == src else None)
                         if pt[0] == "try" and not any(x == pt or x == pt[1] for x in subterms(r)) and pt not in pend:
-                            pend.append(pt)
+                            # a value that flows into an in-place update of something declared outside the block is kept by that update's
+                            # term (with its `?`): it is not a statement of its own as well
+                            bound = {x["id"] for x in walk(st["pat"]) if x.get("k") == "Bind"}
+                            in_block = {id(x) for x in walk(e)}
+                            flows = False
+                            for effs_ in self.effects.values():
+                                for node_, kind_, _g in effs_:
+                                    if id(node_) in in_block and (kind_ == "mutcall" or kind_.startswith("mutarg")):
+                                        uses = lambda nd: any(x.get("k") == "Path" and x.get("r") == "local" and x.get("id") in bound for x in walk(nd))
+                                        lg = next((self.def_ctx[b_][1] for b_ in bound if b_ in self.def_ctx), None)
+                                        if lg is None:
+                                            continue
+                                        extra_g = _g[len(lg):] if _g[:len(lg)] == lg else None
+                                        if extra_g is None:
+                                            continue
+                                        # (the update happens whenever the value exists, or the value is asked about before the update)
+                                        if (not extra_g and uses(node_)) or any(g_[0] == "if" and uses(g_[1]) for g_ in extra_g[:1]):
+                                            flows = True
+                            if not flows:
+                                pend.append(pt)
             if pend:
                 r = ("seq", pend + (list(r[1]) if r[0] == "seq" else []), r[2] if r[0] == "seq" else r)
             return r
@@ -3798,7 +3838,7 @@ class Norm:
                 out.append(("lit", p[1]))
             else:
                 at = self._t(p[1])
-                if at[0] == "fmt" and not str(p[2]).strip(" {}:"):
+                if at[0] == "fmt" and str(p[2]).strip(" {}:") in ("", "new_display"):
                     out.extend(at[1])              # the text of a nested format! stands in its place
                 else:
                     out.append(("arg", p[2], at))
@@ -4182,6 +4222,11 @@ def _opt_body(f, strict=False):
 
 def _mk_for(it, body):
     """for x in ADAPTOR(it) { body }: map / filter / filter_map adaptors fused into the loop body"""
+    b0 = body
+    while b0[0] == "seq" and all(x == ("tup", []) or _is_unit(x) for x in b0[1]):
+        b0 = b0[2]
+    if (b0 == ("tup", []) or _is_unit(b0)) and not _has_try(it) and not any(x[0] in ("mut", "ret") for x in subterms(it)):
+        return ("lit", "()")          # a loop that does nothing for every element (what it did was read as updates of what it updates)
     if it[0] == "call" and it[1] in ("Iterator::map", "Iterator::filter", "Iterator::filter_map") and len(it[2]) == 2 \
             and it[2][1][0] == "closure" and it[2][1][2] == 1:
         base, clo = it[2]
